@@ -926,8 +926,20 @@ impl<'a> Gen<'a> {
                 ManifestCustomValue::Proof(_) => *v = self.proof(),
                 ManifestCustomValue::AddressReservation(_) => *v = self.reservation(),
                 ManifestCustomValue::Blob(b) => {
-                    // blobs of set-up manifests are not carried over: register a small one
-                    let bytes = self.rng.bytes(16);
+                    // carry the blob of the set-up manifest over (sometimes damaged), or register a small random one
+                    let bytes = match self.w.blobs.get(&b.0) {
+                        Some(orig) if self.rng.chance(4, 5) => {
+                            let mut x = orig.clone();
+                            if self.rng.chance(1, 3) && !x.is_empty() {
+                                for _ in 0..1 + self.rng.below(4) {
+                                    let i = self.rng.usize_below(x.len());
+                                    x[i] = self.rng.u8();
+                                }
+                            }
+                            x
+                        }
+                        _ => self.rng.bytes(16),
+                    };
                     *b = ManifestBlobRef(hash(&bytes).0);
                     self.blobs.push(bytes);
                 }
